@@ -943,6 +943,46 @@ pub struct SeqCase {
     pub peers: Vec<(u8, u8, bool)>,
 }
 
+struct SeqHandler {
+    calls: Arc<Mutex<u32>>,
+    writes: Arc<Mutex<Vec<(u16, u16)>>>,
+}
+impl RequestHandler for SeqHandler {
+    fn read_holding_register(&self, address: u16) -> Result<u16, ExceptionCode> {
+        *self.calls.lock().unwrap() += 1;
+        if address == 0 {
+            Ok(0xBEEF)
+        } else {
+            Err(ExceptionCode::IllegalDataAddress)
+        }
+    }
+    fn write_single_register(&mut self, value: rodbus::Indexed<u16>) -> Result<(), ExceptionCode> {
+        *self.calls.lock().unwrap() += 1;
+        self.writes.lock().unwrap().push((value.index, value.value));
+        Ok(())
+    }
+}
+
+/// reads are allowed to every role, writes to "operator" only; every question is recorded
+struct SeqAuth {
+    roles: Arc<Mutex<Vec<String>>>,
+    write_roles: Arc<Mutex<Vec<String>>>,
+}
+impl AuthorizationHandler for SeqAuth {
+    fn read_holding_registers(&self, _u: UnitId, _r: AddressRange, role: &str) -> Authorization {
+        self.roles.lock().unwrap().push(role.to_string());
+        Authorization::Allow
+    }
+    fn write_single_register(&self, _u: UnitId, _idx: u16, role: &str) -> Authorization {
+        self.write_roles.lock().unwrap().push(role.to_string());
+        if role == "operator" {
+            Authorization::Allow
+        } else {
+            Authorization::Deny
+        }
+    }
+}
+
 pub fn arb_seq() -> BoxedStrategy<SeqCase> {
     (
         prop_oneof![Just(12u8), Just(13u8)],
@@ -983,13 +1023,25 @@ async fn run_seq(case: &SeqCase, slow: u32) -> CaseResult {
     let addr = listener.local_addr().unwrap();
     let calls = Arc::new(Mutex::new(0u32));
     let roles = Arc::new(Mutex::new(Vec::new()));
-    let map = ServerHandlerMap::single(UnitId::new(1), Sentinel { calls: calls.clone() }.wrap());
+    let write_roles: Arc<Mutex<Vec<String>>> = Arc::new(Mutex::new(Vec::new()));
+    let writes: Arc<Mutex<Vec<(u16, u16)>>> = Arc::new(Mutex::new(Vec::new()));
+    let map = ServerHandlerMap::single(
+        UnitId::new(1),
+        SeqHandler {
+            calls: calls.clone(),
+            writes: writes.clone(),
+        }
+        .wrap(),
+    );
     let (handle, task) = if case.authz {
         rodbus::server::create_tls_server_task_with_authz(
             16,
             listener,
             map,
-            Arc::new(RoleRecorder { roles: roles.clone() }),
+            Arc::new(SeqAuth {
+                roles: roles.clone(),
+                write_roles: write_roles.clone(),
+            }),
             cfg,
             AddressFilter::Any,
             DecodeLevel::nothing(),
@@ -1003,6 +1055,7 @@ async fn run_seq(case: &SeqCase, slow: u32) -> CaseResult {
     let mut distinct_roles: Vec<&str> = Vec::new();
     let mut refused_after_served = false;
     let mut any_served = false;
+    let mut denied_write = false;
     for (k, (ci, off, keep)) in case.peers.iter().enumerate() {
         let (cert, valid_plain, valid_authz, role) = SEQ_CERTS[*ci as usize % SEQ_CERTS.len()];
         let offer = match off {
@@ -1043,6 +1096,52 @@ async fn run_seq(case: &SeqCase, slow: u32) -> CaseResult {
                     served = true;
                 } else if !got.is_empty() {
                     return Err(format!("peer {} ({:?}): unexpected bytes from the TLS server: {:?}", k, cert, got));
+                }
+            }
+            if served {
+                // a write: with authorization only the role "operator" may do that
+                let wtx = 200 + k as u16;
+                let value = 0x4000 + k as u16;
+                let req = [6u8, 0, 5, (value >> 8) as u8, value as u8];
+                let w_before = writes.lock().unwrap().len();
+                let wr_before = write_roles.lock().unwrap().len();
+                let mut got = Vec::new();
+                if tls.write_all(&mbap_frame(wtx, 1, &req)).await.is_ok() {
+                    let mut buf = [0u8; 64];
+                    loop {
+                        match tokio::time::timeout(wait, tls.read(&mut buf)).await {
+                            Ok(Ok(0)) | Ok(Err(_)) | Err(_) => break,
+                            Ok(Ok(n)) => {
+                                got.extend_from_slice(&buf[..n]);
+                                if got.len() >= 9 {
+                                    break;
+                                }
+                            }
+                        }
+                    }
+                }
+                let may = !case.authz || role == Some("operator");
+                let want = if may { mbap_frame(wtx, 1, &req) } else { mbap_frame(wtx, 1, &[0x86, 1]) };
+                let done: Vec<(u16, u16)> = writes.lock().unwrap()[w_before..].to_vec();
+                let asked: Vec<String> = write_roles.lock().unwrap()[wr_before..].to_vec();
+                let who = format!(
+                    "peer no. {} with certificate {:?} (role {:?}) on a server with authorization {}",
+                    k + 1,
+                    cert,
+                    role,
+                    if case.authz { "on (writes for \"operator\" only)" } else { "off" }
+                );
+                if got != want {
+                    return Err(format!("{}: write single register answered {:02X?}, expected {:02X?}", who, got, want));
+                }
+                if may != (done == vec![(5, value)]) || (!may && !done.is_empty()) {
+                    return Err(format!("{}: writes executed by the application: {:?}", who, done));
+                }
+                if case.authz && asked != vec![role.unwrap_or("").to_string()] {
+                    return Err(format!("{}: the authorization handler was asked about the write with roles {:?}", who, asked));
+                }
+                if case.authz && !may {
+                    denied_write = true;
                 }
             }
             if *keep {
@@ -1106,6 +1205,9 @@ async fn run_seq(case: &SeqCase, slow: u32) -> CaseResult {
     }
     if refused_after_served {
         ok.label("refused_after_a_served_peer");
+    }
+    if denied_write {
+        ok.label("write_denied_by_role");
     }
     ok.nontrivial = distinct_roles.len() >= 2 || refused_after_served;
     Ok(ok)
